@@ -1,14 +1,818 @@
-//! C15 — not built yet.
-use crate::engine::{Ctx, Property};
+//! C15 — reading is the inverse of writing for every table the library can write.
+//!
+//! Three relations per structure (DESIGN §4 C15):
+//!  (a) model → allsorts value → allsorts writer → bytes; the bytes are examined by my own
+//!      spec-written encoders/decoders (expected bytes or decoded model) *and* re-read by allsorts
+//!      and compared with the value;
+//!  (b) model → my encoder → bytes → allsorts reader (compared with the model) → writer → reader →
+//!      writer: generation 2 and 3 byte strings identical, values equal through fields/accessors;
+//!  (c) counts / lengths / offsets beyond their field width → `Err`, or a faithful round trip;
+//!      a truncated table shows up as a decode disagreement.
+//! The sfnt tables live in this file, glyf/cmap in `c15_tt.rs`, CFF / CFF2 / ItemVariationStore in
+//! `c15_cff.rs`.
+
+use crate::engine::{CaseResult, Ctx, Fail, Property, Rec};
+use crate::fontgen::buf::Buf;
+use allsorts::binary::read::{ReadArrayCow, ReadScope};
+use allsorts::binary::write::{WriteBinary, WriteBinaryDep, WriteBuffer, WriteContext};
+use allsorts::error::WriteError;
+use allsorts::tables::os2::{FsSelection, Os2, Version0, Version1, Version2to4, Version5};
+use allsorts::tables::{
+    CvtTable, F2Dot14, Fixed, HeadTable, HheaTable, HmtxTable, IndexToLocFormat, LongHorMetric, MacStyle, MaxpTable,
+    MaxpVersion1SubTable, TableRecord,
+};
+use proptest::prelude::*;
 
 pub struct C15;
+
+pub(crate) fn fail(sig: &str, msg: String) -> Fail {
+    Fail::new(format!("C15:{}", sig), msg)
+}
+
+pub(crate) fn hexs(b: &[u8]) -> String {
+    let n = b.len().min(96);
+    let mut s = hex::encode(&b[..n]);
+    if b.len() > n {
+        s.push_str(&format!("…[{} bytes]", b.len()));
+    }
+    s
+}
+
+/// first differing position of two byte strings, rendered
+pub(crate) fn diff(a: &[u8], b: &[u8]) -> String {
+    let p = a.iter().zip(b.iter()).position(|(x, y)| x != y).unwrap_or(a.len().min(b.len()));
+    let lo = p.saturating_sub(4);
+    format!(
+        "lengths {} / {}, first difference at {}: …{} vs …{}",
+        a.len(),
+        b.len(),
+        p,
+        hexs(&a[lo.min(a.len())..]),
+        hexs(&b[lo.min(b.len())..])
+    )
+}
+
+pub(crate) fn wb<T, H>(val: H) -> Result<Vec<u8>, WriteError>
+where
+    T: WriteBinary<H>,
+{
+    let mut b = WriteBuffer::new();
+    T::write(&mut b, val)?;
+    Ok(b.into_inner())
+}
+
+pub(crate) fn wbd<T, H>(val: H, args: T::Args) -> Result<(T::Output, Vec<u8>), WriteError>
+where
+    T: WriteBinaryDep<H>,
+{
+    let mut b = WriteBuffer::new();
+    let o = T::write_dep(&mut b, val, args)?;
+    Ok((o, b.into_inner()))
+}
+
+// ------------------------------------------------------------------ boundary-biased scalars
+
+pub(crate) const B16: [u16; 10] = [0, 1, 2, 0xFF, 0x100, 0x7FFF, 0x8000, 0x8001, 0xFFFE, 0xFFFF];
+
+pub(crate) fn bu16() -> BoxedStrategy<u16> {
+    prop_oneof![3 => any::<u16>(), 2 => proptest::sample::select(B16.to_vec())].boxed()
+}
+pub(crate) fn bi16() -> BoxedStrategy<i16> {
+    bu16().prop_map(|v| v as i16).boxed()
+}
+pub(crate) fn bu32() -> BoxedStrategy<u32> {
+    prop_oneof![
+        3 => any::<u32>(),
+        2 => proptest::sample::select(vec![0u32, 1, 0xFFFF, 0x1_0000, 0xFF_FFFF, 0x100_0000, 0x7FFF_FFFF, 0x8000_0000, 0xFFFF_FFFF]),
+    ]
+    .boxed()
+}
+pub(crate) fn bi32() -> BoxedStrategy<i32> {
+    bu32().prop_map(|v| v as i32).boxed()
+}
+pub(crate) fn bi64() -> BoxedStrategy<i64> {
+    prop_oneof![
+        3 => any::<i64>(),
+        2 => proptest::sample::select(vec![0i64, 1, -1, i64::MAX, i64::MIN, 0xFFFF_FFFF, 0x1_0000_0000, 3_600_000_000]),
+    ]
+    .boxed()
+}
+pub(crate) fn is_b16(v: u16) -> bool {
+    B16.contains(&v)
+}
+
+// ------------------------------------------------------------------ the generation-2/3 relation
+
+/// bytes → read → write → read → write: generation 2 and 3 identical, the two values equal.
+/// `$read` is an expression over the byte slice `$d` giving `Result<V, ParseError>`; `$write` an
+/// expression over `$v: &V` (and `$d`, the bytes `$v` was read from) giving
+/// `Result<Vec<u8>, WriteError>`; `$same` compares `$a` (first value) and `$b` (second value) and
+/// gives `Result<(), String>`. Evaluates to the generation-2 bytes.
+macro_rules! stable {
+    ($name:expr, $bytes:expr, |$d:ident| $read:expr, |$v:ident| $write:expr, |$a:ident, $b:ident| $same:expr) => {{
+        let $d: &[u8] = $bytes;
+        let va = ($read).map_err(|e| {
+            $crate::props::c15::fail(concat!($name, ":parse"), format!("input does not parse: {:?}; bytes {}", e, $crate::props::c15::hexs($d)))
+        })?;
+        let bytes2: Vec<u8> = {
+            let $v = &va;
+            $write
+        }
+        .map_err(|e| {
+            $crate::props::c15::fail(
+                concat!($name, ":write-of-parsed-refused"),
+                format!("writing the value parsed from valid bytes failed: {:?}; bytes {}", e, $crate::props::c15::hexs($d)),
+            )
+        })?;
+        let bytes3: Vec<u8> = {
+            let $d: &[u8] = &bytes2;
+            let vb = ($read).map_err(|e| {
+                $crate::props::c15::fail(
+                    concat!($name, ":reparse"),
+                    format!("written bytes do not parse: {:?}; written {}", e, $crate::props::c15::hexs($d)),
+                )
+            })?;
+            #[allow(clippy::redundant_closure_call)]
+            let same: Result<(), String> = (|| {
+                let $a = &va;
+                let $b = &vb;
+                $same
+            })();
+            same.map_err(|m| $crate::props::c15::fail(concat!($name, ":value-changed"), format!("value after write+read differs: {}; written {}", m, $crate::props::c15::hexs($d))))?;
+            let $v = &vb;
+            ($write).map_err(|e| $crate::props::c15::fail(concat!($name, ":rewrite-refused"), format!("{:?}", e)))?
+        };
+        if bytes3 != bytes2 {
+            return Err($crate::props::c15::fail(
+                concat!($name, ":unstable"),
+                format!("generation 3 differs from generation 2: {}", $crate::props::c15::diff(&bytes2, &bytes3)),
+            ));
+        }
+        bytes2
+    }};
+}
+
+macro_rules! eqf {
+    ($a:expr, $b:expr, $($f:ident).+) => {
+        if $a.$($f).+ != $b.$($f).+ {
+            return Err(format!("{}: {:?} vs {:?}", stringify!($($f).+), $a.$($f).+, $b.$($f).+));
+        }
+    };
+}
+
+#[path = "c15_cff.rs"]
+pub mod cff;
+#[path = "c15_tt.rs"]
+pub mod tt;
+
+// ================================================================== head
+
+#[derive(Clone, Debug)]
+pub struct HeadM {
+    major: u16,
+    minor: u16,
+    rev: i32,
+    csa: u32,
+    flags: u16,
+    upem: u16,
+    created: i64,
+    modified: i64,
+    bbox: [i16; 4],
+    mac: u16,
+    ppem: u16,
+    hint: i16,
+    long: bool,
+    gdf: i16,
+}
+
+fn head_strategy() -> impl Strategy<Value = HeadM> {
+    (
+        (bu16(), bu16(), bi32(), bu32(), bu16(), bu16()),
+        (bi64(), bi64(), [bi16(), bi16(), bi16(), bi16()]),
+        (bu16(), bu16(), bi16(), any::<bool>(), bi16()),
+    )
+        .prop_map(|((major, minor, rev, csa, flags, upem), (created, modified, bbox), (mac, ppem, hint, long, gdf))| HeadM {
+            major,
+            minor,
+            rev,
+            csa,
+            flags,
+            upem,
+            created,
+            modified,
+            bbox,
+            mac,
+            ppem,
+            hint,
+            long,
+            gdf,
+        })
+}
+
+fn enc_head(m: &HeadM, mac: u16) -> Vec<u8> {
+    let mut b = Buf::new();
+    b.u16(m.major).u16(m.minor).i32(m.rev).u32(m.csa).u32(0x5F0F3CF5).u16(m.flags).u16(m.upem);
+    b.i64(m.created).i64(m.modified);
+    b.i16(m.bbox[0]).i16(m.bbox[1]).i16(m.bbox[2]).i16(m.bbox[3]);
+    b.u16(mac).u16(m.ppem).i16(m.hint).i16(if m.long { 1 } else { 0 }).i16(m.gdf);
+    b.into_vec()
+}
+
+pub(crate) fn write_head(h: &HeadTable) -> Result<Vec<u8>, WriteError> {
+    let mut b = WriteBuffer::new();
+    let ph = HeadTable::write(&mut b, h)?;
+    b.write_placeholder(ph, h.check_sum_adjustment)?;
+    Ok(b.into_inner())
+}
+
+fn check_head(m: &HeadM, rec: &mut Rec) -> CaseResult {
+    let v = HeadTable {
+        major_version: m.major,
+        minor_version: m.minor,
+        font_revision: Fixed::from_raw(m.rev),
+        check_sum_adjustment: m.csa,
+        magic_number: 0x5F0F3CF5,
+        flags: m.flags,
+        units_per_em: m.upem,
+        created: m.created,
+        modified: m.modified,
+        x_min: m.bbox[0],
+        y_min: m.bbox[1],
+        x_max: m.bbox[2],
+        y_max: m.bbox[3],
+        mac_style: MacStyle::from_bits_truncate(m.mac),
+        lowest_rec_ppem: m.ppem,
+        font_direction_hint: m.hint,
+        index_to_loc_format: if m.long { IndexToLocFormat::Long } else { IndexToLocFormat::Short },
+        glyph_data_format: m.gdf,
+    };
+    // (a)
+    let expect = enc_head(m, m.mac & 0x7F);
+    let got = write_head(&v).map_err(|e| fail("head:write", format!("{:?}", e)))?;
+    if got != expect {
+        return Err(fail("head:written-bytes", format!("{:?}: {}", v, diff(&got, &expect))));
+    }
+    let back = ReadScope::new(&got).read::<HeadTable>().map_err(|e| fail("head:read-back", format!("{:?}", e)))?;
+    if back != v {
+        return Err(fail("head:value", format!("wrote {:?} read {:?}", v, back)));
+    }
+    // (b) raw macStyle with reserved bits
+    let raw = enc_head(m, m.mac);
+    let g2 = stable!("head", &raw, |d| ReadScope::new(d).read::<HeadTable>(), |t| write_head(t), |a, b| if a == b { Ok(()) } else { Err(format!("{:?} vs {:?}", a, b)) });
+    if g2 != expect {
+        return Err(fail("head:gen2-bytes", diff(&g2, &expect)));
+    }
+    rec.set_nontrivial([m.major, m.minor, m.flags, m.upem, m.mac, m.ppem].iter().any(|v| is_b16(*v)) || m.bbox.iter().any(|v| is_b16(*v as u16)));
+    rec.class("head");
+    rec.class_if(m.mac & !0x7F != 0, "head:reserved-macstyle-bits");
+    rec.hash_bytes(&raw);
+    Ok(())
+}
+
+// ================================================================== hhea
+
+#[derive(Clone, Debug)]
+pub struct HheaM {
+    f: [u16; 10],
+    nhm: u16,
+    minor: u16,
+    reserved: [i16; 4],
+}
+
+fn enc_hhea(m: &HheaM, minor: u16, reserved: [i16; 4]) -> Vec<u8> {
+    let mut b = Buf::new();
+    b.u16(1).u16(minor);
+    for v in m.f {
+        b.u16(v);
+    }
+    for r in reserved {
+        b.i16(r);
+    }
+    b.i16(0).u16(m.nhm);
+    b.into_vec()
+}
+
+fn check_hhea(m: &HheaM, rec: &mut Rec) -> CaseResult {
+    let v = HheaTable {
+        ascender: m.f[0] as i16,
+        descender: m.f[1] as i16,
+        line_gap: m.f[2] as i16,
+        advance_width_max: m.f[3],
+        min_left_side_bearing: m.f[4] as i16,
+        min_right_side_bearing: m.f[5] as i16,
+        x_max_extent: m.f[6] as i16,
+        caret_slope_rise: m.f[7] as i16,
+        caret_slope_run: m.f[8] as i16,
+        caret_offset: m.f[9] as i16,
+        num_h_metrics: m.nhm,
+    };
+    let expect = enc_hhea(m, 0, [0; 4]);
+    let got = wb::<HheaTable, _>(&v).map_err(|e| fail("hhea:write", format!("{:?}", e)))?;
+    if got != expect {
+        return Err(fail("hhea:written-bytes", format!("{:?}: {}", v, diff(&got, &expect))));
+    }
+    let back = ReadScope::new(&got).read::<HheaTable>().map_err(|e| fail("hhea:read-back", format!("{:?}", e)))?;
+    if back != v {
+        return Err(fail("hhea:value", format!("wrote {:?} read {:?}", v, back)));
+    }
+    let raw = enc_hhea(m, m.minor, m.reserved);
+    let g2 = stable!("hhea", &raw, |d| ReadScope::new(d).read::<HheaTable>(), |t| wb::<HheaTable, _>(t), |a, b| if a == b && *a == v { Ok(()) } else { Err(format!("{:?} vs {:?}", a, b)) });
+    if g2 != expect {
+        return Err(fail("hhea:gen2-bytes", diff(&g2, &expect)));
+    }
+    rec.set_nontrivial(m.f.iter().any(|v| is_b16(*v)) || is_b16(m.nhm));
+    rec.class("hhea");
+    rec.hash_bytes(&raw);
+    Ok(())
+}
+
+// ================================================================== maxp
+
+#[derive(Clone, Debug)]
+pub struct MaxpM {
+    n: u16,
+    v1: Option<[u16; 13]>,
+}
+
+fn enc_maxp(m: &MaxpM) -> Vec<u8> {
+    let mut b = Buf::new();
+    match &m.v1 {
+        Some(f) => {
+            b.u32(0x0001_0000).u16(m.n);
+            for v in f {
+                b.u16(*v);
+            }
+        }
+        None => {
+            b.u32(0x0000_5000).u16(m.n);
+        }
+    }
+    b.into_vec()
+}
+
+fn check_maxp(m: &MaxpM, rec: &mut Rec) -> CaseResult {
+    let v = MaxpTable {
+        num_glyphs: m.n,
+        version1_sub_table: m.v1.map(|f| MaxpVersion1SubTable {
+            max_points: f[0],
+            max_contours: f[1],
+            max_composite_points: f[2],
+            max_composite_contours: f[3],
+            max_zones: f[4],
+            max_twilight_points: f[5],
+            max_storage: f[6],
+            max_function_defs: f[7],
+            max_instruction_defs: f[8],
+            max_stack_elements: f[9],
+            max_size_of_instructions: f[10],
+            max_component_elements: f[11],
+            max_component_depth: f[12],
+        }),
+    };
+    let expect = enc_maxp(m);
+    let got = wb::<MaxpTable, _>(&v).map_err(|e| fail("maxp:write", format!("{:?}", e)))?;
+    if got != expect {
+        return Err(fail("maxp:written-bytes", format!("{:?}: {}", v, diff(&got, &expect))));
+    }
+    let g2 = stable!("maxp", &expect, |d| ReadScope::new(d).read::<MaxpTable>(), |t| wb::<MaxpTable, _>(t), |a, b| if a == b && *a == v { Ok(()) } else { Err(format!("{:?} vs {:?} vs {:?}", a, b, v)) });
+    if g2 != expect {
+        return Err(fail("maxp:gen2-bytes", diff(&g2, &expect)));
+    }
+    rec.set_nontrivial(is_b16(m.n) || m.v1.map_or(false, |f| f.iter().any(|v| is_b16(*v))));
+    rec.class(if m.v1.is_some() { "maxp:1.0" } else { "maxp:0.5" });
+    rec.hash_bytes(&expect);
+    Ok(())
+}
+
+// ================================================================== hmtx / cvt
+
+#[derive(Clone, Debug)]
+pub struct HmtxM {
+    metrics: Vec<(u16, i16)>,
+    lsbs: Vec<i16>,
+}
+
+fn enc_hmtx(m: &HmtxM) -> Vec<u8> {
+    let mut b = Buf::new();
+    for (a, l) in &m.metrics {
+        b.u16(*a).i16(*l);
+    }
+    for l in &m.lsbs {
+        b.i16(*l);
+    }
+    b.into_vec()
+}
+
+fn hmtx_matches(t: &HmtxTable<'_>, m: &HmtxM) -> Result<(), String> {
+    if t.h_metrics.len() != m.metrics.len() || t.left_side_bearings.len() != m.lsbs.len() {
+        return Err(format!("lengths {}+{} vs model {}+{}", t.h_metrics.len(), t.left_side_bearings.len(), m.metrics.len(), m.lsbs.len()));
+    }
+    for (i, (a, l)) in m.metrics.iter().enumerate() {
+        let g = t.h_metrics.get_item(i).ok_or("missing metric")?;
+        if g.advance_width != *a || g.lsb != *l {
+            return Err(format!("metric {}: {:?} vs ({}, {})", i, g, a, l));
+        }
+    }
+    for (i, l) in m.lsbs.iter().enumerate() {
+        if t.left_side_bearings.get_item(i) != Some(*l) {
+            return Err(format!("lsb {}: {:?} vs {}", i, t.left_side_bearings.get_item(i), l));
+        }
+    }
+    // the accessor semantics of the spec
+    let n = m.metrics.len() + m.lsbs.len();
+    if !m.metrics.is_empty() {
+        for gid in [0usize, m.metrics.len() - 1, m.metrics.len(), n.saturating_sub(1)] {
+            if gid >= n || gid > 0xFFFF {
+                continue;
+            }
+            let exp = if gid < m.metrics.len() { m.metrics[gid] } else { (m.metrics[m.metrics.len() - 1].0, m.lsbs[gid - m.metrics.len()]) };
+            match t.metric(gid as u16) {
+                Ok(g) if (g.advance_width, g.lsb) == exp => {}
+                other => return Err(format!("metric({}) = {:?}, expected {:?}", gid, other, exp)),
+            }
+        }
+    }
+    Ok(())
+}
+
+fn check_hmtx(m: &HmtxM, rec: &mut Rec) -> CaseResult {
+    let v = HmtxTable {
+        h_metrics: ReadArrayCow::Owned(m.metrics.iter().map(|(a, l)| LongHorMetric { advance_width: *a, lsb: *l }).collect()),
+        left_side_bearings: ReadArrayCow::Owned(m.lsbs.clone()),
+    };
+    let expect = enc_hmtx(m);
+    let got = wb::<HmtxTable<'_>, _>(&v).map_err(|e| fail("hmtx:write", format!("{:?}", e)))?;
+    if got != expect {
+        return Err(fail("hmtx:written-bytes", diff(&got, &expect)));
+    }
+    let n = m.metrics.len() + m.lsbs.len();
+    let nhm = m.metrics.len();
+    let g2 = stable!(
+        "hmtx",
+        &expect,
+        |d| ReadScope::new(d).read_dep::<HmtxTable<'_>>((n, nhm)),
+        |t| wb::<HmtxTable<'_>, _>(t),
+        |a, b| hmtx_matches(a, m).and_then(|_| hmtx_matches(b, m))
+    );
+    if g2 != expect {
+        return Err(fail("hmtx:gen2-bytes", diff(&g2, &expect)));
+    }
+    rec.set_nontrivial(n >= 2);
+    rec.class("hmtx");
+    rec.class_if(m.lsbs.is_empty(), "hmtx:nHM=numGlyphs");
+    rec.class_if(m.metrics.is_empty(), "hmtx:nHM=0");
+    rec.hash_bytes(&expect);
+    Ok(())
+}
+
+fn check_cvt(vals: &Vec<i16>, rec: &mut Rec) -> CaseResult {
+    let v = CvtTable { values: ReadArrayCow::Owned(vals.clone()) };
+    let mut e = Buf::new();
+    for x in vals {
+        e.i16(*x);
+    }
+    let expect = e.into_vec();
+    let got = wb::<CvtTable<'_>, _>(&v).map_err(|e| fail("cvt:write", format!("{:?}", e)))?;
+    if got != expect {
+        return Err(fail("cvt:written-bytes", diff(&got, &expect)));
+    }
+    let same = |t: &CvtTable<'_>| -> Result<(), String> {
+        let g: Vec<i16> = t.values.iter().collect();
+        if &g == vals {
+            Ok(())
+        } else {
+            Err(format!("{:?} vs {:?}", g, vals))
+        }
+    };
+    let len = expect.len() as u32;
+    let g2 = stable!("cvt", &expect, |d| ReadScope::new(d).read_dep::<CvtTable<'_>>(len), |t| wb::<CvtTable<'_>, _>(t), |a, b| same(a).and_then(|_| same(b)));
+    if g2 != expect {
+        return Err(fail("cvt:gen2-bytes", diff(&g2, &expect)));
+    }
+    rec.set_nontrivial(vals.len() >= 2);
+    rec.class("cvt");
+    rec.hash_bytes(&expect);
+    Ok(())
+}
+
+// ================================================================== OS/2
+
+#[derive(Clone, Debug)]
+pub struct Os2M {
+    /// 0: version 0, 68 bytes; 1: version 0, 78 bytes; 2: v1; 3: v2; 4: v3; 5: v4; 6: v5
+    kind: u8,
+    w: [u16; 15],
+    panose: [u8; 10],
+    ur: [u32; 4],
+    vend: u32,
+    fssel: u16,
+    first: u16,
+    last: u16,
+    v0: [u16; 5],
+    v1: [u32; 2],
+    v2: [u16; 5],
+    v5: [u16; 2],
+}
+
+fn os2_version(kind: u8) -> u16 {
+    match kind {
+        0 | 1 => 0,
+        2 => 1,
+        3 => 2,
+        4 => 3,
+        5 => 4,
+        _ => 5,
+    }
+}
+
+fn enc_os2(m: &Os2M, version: u16, fssel: u16) -> Vec<u8> {
+    let mut b = Buf::new();
+    b.u16(version);
+    for v in m.w {
+        b.u16(v);
+    }
+    b.bytes(&m.panose);
+    for v in m.ur {
+        b.u32(v);
+    }
+    b.u32(m.vend).u16(fssel).u16(m.first).u16(m.last);
+    if m.kind >= 1 {
+        for v in m.v0 {
+            b.u16(v);
+        }
+    }
+    if m.kind >= 2 {
+        b.u32(m.v1[0]).u32(m.v1[1]);
+    }
+    if m.kind >= 3 {
+        for v in m.v2 {
+            b.u16(v);
+        }
+    }
+    if m.kind >= 6 {
+        b.u16(m.v5[0]).u16(m.v5[1]);
+    }
+    b.into_vec()
+}
+
+fn os2_value(m: &Os2M) -> Os2 {
+    Os2 {
+        version: os2_version(m.kind),
+        x_avg_char_width: m.w[0] as i16,
+        us_weight_class: m.w[1],
+        us_width_class: m.w[2],
+        fs_type: m.w[3],
+        y_subscript_x_size: m.w[4] as i16,
+        y_subscript_y_size: m.w[5] as i16,
+        y_subscript_x_offset: m.w[6] as i16,
+        y_subscript_y_offset: m.w[7] as i16,
+        y_superscript_x_size: m.w[8] as i16,
+        y_superscript_y_size: m.w[9] as i16,
+        y_superscript_x_offset: m.w[10] as i16,
+        y_superscript_y_offset: m.w[11] as i16,
+        y_strikeout_size: m.w[12] as i16,
+        y_strikeout_position: m.w[13] as i16,
+        s_family_class: m.w[14] as i16,
+        panose: m.panose,
+        ul_unicode_range1: m.ur[0],
+        ul_unicode_range2: m.ur[1],
+        ul_unicode_range3: m.ur[2],
+        ul_unicode_range4: m.ur[3],
+        ach_vend_id: m.vend,
+        fs_selection: FsSelection::from_bits_truncate(m.fssel),
+        us_first_char_index: m.first,
+        us_last_char_index: m.last,
+        version0: (m.kind >= 1).then(|| Version0 {
+            s_typo_ascender: m.v0[0] as i16,
+            s_typo_descender: m.v0[1] as i16,
+            s_typo_line_gap: m.v0[2] as i16,
+            us_win_ascent: m.v0[3],
+            us_win_descent: m.v0[4],
+        }),
+        version1: (m.kind >= 2).then(|| Version1 { ul_code_page_range1: m.v1[0], ul_code_page_range2: m.v1[1] }),
+        version2to4: (m.kind >= 3).then(|| Version2to4 {
+            sx_height: m.v2[0] as i16,
+            s_cap_height: m.v2[1] as i16,
+            us_default_char: m.v2[2],
+            us_break_char: m.v2[3],
+            us_max_context: m.v2[4],
+        }),
+        version5: (m.kind >= 6).then(|| Version5 { us_lower_optical_point_size: m.v5[0], us_upper_optical_point_size: m.v5[1] }),
+    }
+}
+
+/// field-wise comparison of two OS/2 values; `version` is compared modulo the declared
+/// normalisation (2 and 3 are written as 4)
+pub(crate) fn os2_same(a: &Os2, b: &Os2) -> Result<(), String> {
+    let norm = |v: u16| if v == 2 || v == 3 { 4 } else { v };
+    if norm(a.version) != norm(b.version) {
+        return Err(format!("version {} vs {}", a.version, b.version));
+    }
+    eqf!(a, b, x_avg_char_width);
+    eqf!(a, b, us_weight_class);
+    eqf!(a, b, us_width_class);
+    eqf!(a, b, fs_type);
+    eqf!(a, b, y_subscript_x_size);
+    eqf!(a, b, y_subscript_y_size);
+    eqf!(a, b, y_subscript_x_offset);
+    eqf!(a, b, y_subscript_y_offset);
+    eqf!(a, b, y_superscript_x_size);
+    eqf!(a, b, y_superscript_y_size);
+    eqf!(a, b, y_superscript_x_offset);
+    eqf!(a, b, y_superscript_y_offset);
+    eqf!(a, b, y_strikeout_size);
+    eqf!(a, b, y_strikeout_position);
+    eqf!(a, b, s_family_class);
+    eqf!(a, b, panose);
+    eqf!(a, b, ul_unicode_range1);
+    eqf!(a, b, ul_unicode_range2);
+    eqf!(a, b, ul_unicode_range3);
+    eqf!(a, b, ul_unicode_range4);
+    eqf!(a, b, ach_vend_id);
+    if a.fs_selection.bits() != b.fs_selection.bits() {
+        return Err(format!("fs_selection {:?} vs {:?}", a.fs_selection, b.fs_selection));
+    }
+    eqf!(a, b, us_first_char_index);
+    eqf!(a, b, us_last_char_index);
+    let v0 = |o: &Os2| o.version0.as_ref().map(|v| (v.s_typo_ascender, v.s_typo_descender, v.s_typo_line_gap, v.us_win_ascent, v.us_win_descent));
+    let v1 = |o: &Os2| o.version1.as_ref().map(|v| (v.ul_code_page_range1, v.ul_code_page_range2));
+    let v2 = |o: &Os2| o.version2to4.as_ref().map(|v| (v.sx_height, v.s_cap_height, v.us_default_char, v.us_break_char, v.us_max_context));
+    let v5 = |o: &Os2| o.version5.as_ref().map(|v| (v.us_lower_optical_point_size, v.us_upper_optical_point_size));
+    if v0(a) != v0(b) {
+        return Err(format!("version0 {:?} vs {:?}", v0(a), v0(b)));
+    }
+    if v1(a) != v1(b) {
+        return Err(format!("version1 {:?} vs {:?}", v1(a), v1(b)));
+    }
+    if v2(a) != v2(b) {
+        return Err(format!("version2to4 {:?} vs {:?}", v2(a), v2(b)));
+    }
+    if v5(a) != v5(b) {
+        return Err(format!("version5 {:?} vs {:?}", v5(a), v5(b)));
+    }
+    Ok(())
+}
+
+fn check_os2(m: &Os2M, rec: &mut Rec) -> CaseResult {
+    let v = os2_value(m);
+    let written_version = match m.kind {
+        0 | 1 => 0,
+        2 => 1,
+        3..=5 => 4,
+        _ => 5,
+    };
+    let expect = enc_os2(m, written_version, m.fssel & 0x3FF);
+    let got = wb::<Os2, _>(&v).map_err(|e| fail("os2:write", format!("{:?}", e)))?;
+    if got != expect {
+        return Err(fail("os2:written-bytes", format!("kind {}: {}", m.kind, diff(&got, &expect))));
+    }
+    let back = ReadScope::new(&got).read_dep::<Os2>(got.len()).map_err(|e| fail("os2:read-back", format!("{:?}", e)))?;
+    os2_same(&v, &back).map_err(|s| fail("os2:value", format!("kind {}: {}", m.kind, s)))?;
+    if back.version != written_version {
+        return Err(fail("os2:version", format!("kind {} read back as version {}", m.kind, back.version)));
+    }
+    // (b) from my bytes with the original version number and reserved fsSelection bits
+    let raw = enc_os2(m, os2_version(m.kind), m.fssel);
+    let g2 = stable!(
+        "os2",
+        &raw,
+        |d| ReadScope::new(d).read_dep::<Os2>(d.len()),
+        |t| wb::<Os2, _>(t),
+        |a, b| os2_same(a, &v).and_then(|_| os2_same(a, b)).and_then(|_| if a.version == os2_version(m.kind) { Ok(()) } else { Err(format!("version read {}", a.version)) })
+    );
+    if g2 != expect {
+        return Err(fail("os2:gen2-bytes", diff(&g2, &expect)));
+    }
+    rec.set_nontrivial(m.w.iter().chain(m.v0.iter()).chain(m.v2.iter()).any(|v| is_b16(*v)));
+    rec.class(match m.kind {
+        0 => "os2:v0-68",
+        1 => "os2:v0-78",
+        2 => "os2:v1",
+        3 => "os2:v2",
+        4 => "os2:v3",
+        5 => "os2:v4",
+        _ => "os2:v5",
+    });
+    rec.hash_bytes(&raw);
+    Ok(())
+}
+
+fn os2_strategy() -> impl Strategy<Value = Os2M> {
+    (
+        (0u8..7, proptest::array::uniform15(bu16()), any::<[u8; 10]>(), [bu32(), bu32(), bu32(), bu32()]),
+        (bu32(), bu16(), bu16(), bu16()),
+        (proptest::array::uniform5(bu16()), [bu32(), bu32()], proptest::array::uniform5(bu16()), [bu16(), bu16()]),
+    )
+        .prop_map(|((kind, w, panose, ur), (vend, fssel, first, last), (v0, v1, v2, v5))| Os2M {
+            kind,
+            w,
+            panose,
+            ur,
+            vend,
+            fssel,
+            first,
+            last,
+            v0,
+            v1,
+            v2,
+            v5,
+        })
+}
+
+// ================================================================== scalars / records
+
+fn check_scalars(c: &(u32, u32, u32, u32, i16, i32, u16, i16), rec: &mut Rec) -> CaseResult {
+    let (a, b, cc, d, f, x, adv, lsb) = *c;
+    let tr = TableRecord { table_tag: a, checksum: b, offset: cc, length: d };
+    let mut e = Buf::new();
+    e.u32(a).u32(b).u32(cc).u32(d);
+    let got = wb::<TableRecord, _>(&tr).map_err(|e| fail("scalar:write", format!("{:?}", e)))?;
+    if got != e.0 {
+        return Err(fail("tablerecord:written-bytes", diff(&got, &e.0)));
+    }
+    let back = ReadScope::new(&got).read::<TableRecord>().map_err(|e| fail("tablerecord:read", format!("{:?}", e)))?;
+    if back != tr {
+        return Err(fail("tablerecord:value", format!("{:?} vs {:?}", back, tr)));
+    }
+    let got = wb::<F2Dot14, _>(F2Dot14::from_raw(f)).map_err(|e| fail("scalar:write", format!("{:?}", e)))?;
+    if got != f.to_be_bytes() || ReadScope::new(&got).read::<F2Dot14>().map(|v| v.raw_value()).ok() != Some(f) {
+        return Err(fail("f2dot14:roundtrip", format!("raw {} written {}", f, hexs(&got))));
+    }
+    let got = wb::<Fixed, _>(Fixed::from_raw(x)).map_err(|e| fail("scalar:write", format!("{:?}", e)))?;
+    if got != x.to_be_bytes() || ReadScope::new(&got).read::<Fixed>().map(|v| v.raw_value()).ok() != Some(x) {
+        return Err(fail("fixed:roundtrip", format!("raw {} written {}", x, hexs(&got))));
+    }
+    let got = wb::<LongHorMetric, _>(LongHorMetric { advance_width: adv, lsb }).map_err(|e| fail("scalar:write", format!("{:?}", e)))?;
+    let mut e = Buf::new();
+    e.u16(adv).i16(lsb);
+    if got != e.0 || ReadScope::new(&got).read::<LongHorMetric>().ok() != Some(LongHorMetric { advance_width: adv, lsb }) {
+        return Err(fail("longhormetric:roundtrip", format!("({}, {}) written {}", adv, lsb, hexs(&got))));
+    }
+    for (fmt, raw) in [(IndexToLocFormat::Short, 0i16), (IndexToLocFormat::Long, 1)] {
+        let got = wb::<IndexToLocFormat, _>(fmt).map_err(|e| fail("scalar:write", format!("{:?}", e)))?;
+        if got != raw.to_be_bytes() || ReadScope::new(&got).read::<IndexToLocFormat>().ok() != Some(fmt) {
+            return Err(fail("indextolocformat:roundtrip", format!("{:?} written {}", fmt, hexs(&got))));
+        }
+    }
+    rec.evaluations(4);
+    rec.set_nontrivial(is_b16(f as u16) || is_b16(adv));
+    rec.class("scalars");
+    Ok(())
+}
+
+// ================================================================== property
 
 impl Property for C15 {
     fn id(&self) -> &'static str {
         "C15"
     }
     fn rule(&self) -> String {
-        "not implemented".to_string()
+        "per structure (head, hhea, maxp, hmtx, cvt, OS/2 68-byte v0 … v5, post 1/2/2.5/3, name owned+borrowed with lang tags, loca, simple and composite glyphs, glyf+loca, \
+         cmap subtables 0/4/6/10/12 owned+borrowed, whole cmap, TableRecord/F2Dot14/Fixed, CFF operands/operators/DICTs/INDEXes/charsets/encodings/FDSelects, whole CFF \
+         name- and CID-keyed, CFF2, ItemVariationStore) a proptest model with boundary-biased fields is (a) turned into the allsorts value, written, the bytes checked against my own \
+         spec-written encoder or decoder and re-read; (b) encoded by my own encoder, read (compared with the model), written, read, written: generations 2 and 3 identical, values equal; \
+         (c) deterministic and generated edge cases drive counts/lengths/offsets past their field width and demand Err or a faithful round trip. Fixture tables of the repository \
+         fonts go through (b). Non-trivial = ≥ 1 field in a boundary class (0, 1, 0xFF/0x100, 0x7FFF/0x8000, 0xFFFF, operand-encoding edges, INDEX offSize edges) or ≥ 2 array elements; \
+         distinct by hash of the encoded model."
+            .to_string()
     }
-    fn run(&self, _ctx: &mut Ctx) {}
+    fn assumptions(&self) -> Vec<String> {
+        vec![
+            "accepted normalisations: head.checkSumAdjustment is filled through the returned placeholder; reserved macStyle/fsSelection/composite flag bits are dropped by the reader; hhea minor version and reserved words are written as 0; OS/2 versions 2–3 are written as 4; DICT entries equal to their defaults are omitted; CFF header size 4 / CFF2 header size 5; simple-glyph flags other than ON_CURVE are normalised; short-loca glyphs are padded to 2 bytes".into(),
+            "values are generated inside the format: array lengths that the format ties together are equal, composite flags agree with the component's fields, post name count agrees with the largest index".into(),
+            "an Err from a writer is accepted only when a count, length or offset of the straightforward sequential layout does not fit its field".into(),
+        ]
+    }
+    fn run(&self, ctx: &mut Ctx) {
+        let n = ctx.cases(24_000, 720_000);
+        ctx.section("head", n, head_strategy(), |m, rec| check_head(m, rec));
+        ctx.section(
+            "hhea",
+            n,
+            (proptest::array::uniform10(bu16()), bu16(), bu16(), [bi16(), bi16(), bi16(), bi16()]).prop_map(|(f, nhm, minor, reserved)| HheaM { f, nhm, minor, reserved }),
+            |m, rec| check_hhea(m, rec),
+        );
+        ctx.section(
+            "maxp",
+            n,
+            (bu16(), proptest::option::weighted(0.6, proptest::array::uniform13(bu16()))).prop_map(|(n, v1)| MaxpM { n, v1 }),
+            |m, rec| check_maxp(m, rec),
+        );
+        ctx.section(
+            "hmtx",
+            n,
+            (proptest::collection::vec((bu16(), bi16()), 0..12), proptest::collection::vec(bi16(), 0..12)).prop_map(|(metrics, lsbs)| HmtxM { metrics, lsbs }),
+            |m, rec| check_hmtx(m, rec),
+        );
+        ctx.section("cvt", ctx.cases(12_000, 360_000), proptest::collection::vec(bi16(), 0..40), |m, rec| check_cvt(m, rec));
+        ctx.section("os2", ctx.cases(36_000, 1_200_000), os2_strategy(), |m, rec| check_os2(m, rec));
+        ctx.section(
+            "scalars",
+            ctx.cases(24_000, 720_000),
+            (bu32(), bu32(), bu32(), bu32(), bi16(), bi32(), bu16(), bi16()),
+            |m, rec| check_scalars(m, rec),
+        );
+        tt::run(ctx);
+        cff::run(ctx);
+    }
 }
